@@ -940,6 +940,9 @@ static bool fmt_escape(int mode, uint32_t cp, bool v11, U16& ref) {
         if (cp == 0xD) return hex(cp);                            // otherwise lost to end-of-line normalisation
     }
     if (v11 && isRestricted11(cp)) return hex(cp);               // XML 1.1: only as references
+    // XML 1.1 2.11: literal NEL / LSEP are end-of-line characters and come back as LF (a space in attribute values), so wherever CR
+    // needs a reference they need one too (the tree oracle of the data space demands the same)
+    if (v11 && (cp == 0x85 || cp == 0x2028) && (mode == XMLFormatter::AttrEscapes || mode == XMLFormatter::CharEscapes)) return hex(cp);
     return false;
 }
 struct FmtCase { int enc, v11, mode, unrep; };
